@@ -473,8 +473,7 @@ def prev_recorded(O, rep):
     eng.inline_cyclic = True
     eng.auto_inline_max_blocks = 400
     eng.auto_inline_depth = 12
-    eng.models["StmtIterator::next_with_context"] = serve_rows if first_kinds else serve_one_row
-    offset = len(reference_expansion(list(first_kinds), layout)) if first_kinds else 0
+    eng.models["StmtIterator::next_with_context"] = serve_one_row
     eng.models["StmtIterator::new"] = lambda ctx: ctx.ret(Node(fresh_root("stmtiter"), ty=ctx.dest_ty))
     fn = make_harness_new(1)
 
@@ -495,17 +494,6 @@ def prev_recorded(O, rep):
                            "stmt::DataEntries")
         st.extra["row"] = row
         st.extra["served"] = mk_bool(z3.BoolVal(False))
-        if first_kinds:
-            LONG = {"N": "Number", "X": "X", "Z": "Z", "C": "C"}
-            fents = []
-            for c in range(n):
-                e = build.sym_enum("f%d" % c, "stmt::DataEntry")
-                st.pc.append(eng_.tag_of(e, st) == bv64(m.vidx("DataEntry", LONG[first_kinds[c]])))
-                fents.append(e)
-            frow = build.struct([build.vec_of(eng_, fents, "Vec<stmt::DataEntry>"), build.usize(LINE - 2),
-                                 mk_bool(z3.BoolVal(True))], "stmt::DataEntries")
-            st.extra["rows"] = [frow, row]
-            st.extra["served"] = build.usize(0)
     paths = O.explore(eng, fn, setup=setup)
     tag0 = z3.BitVec("e0.tag", 64)
     val0 = z3.BitVec("e0#Number.0", 64)
